@@ -277,6 +277,9 @@ _EXTRA = {
     'R83': (['C03', 'C05', 'C12', 'C20'], 'R83: _find_next skips POP data, stops at its first hit, and splits the pending data with the index of the loop that found the hit.'),
     'R84': (['C04'], 'R84: surface.alignments / role_alignments scan the whole marker list of a triple.'),
     'R85': (['C10', 'C20'], 'R85: the letter that becomes the variable prefix is chosen with str.isalpha (or a one-character pattern whose language is exactly that set).'),
+    'R58': (['C05'], 'R58: rearrange(attributes_first=True) tells attributes from edges with the variables of all nodes of the tree (t.nodes()), the top included.'),
+    'R14': (['C10'], 'R14 (E4): nodes(), format, interpret and the other read-only calls on a tree do not write to it (a cache written by a query goes stale when the tree is rearranged, and relabelling then numbers the old order).'),
+    'R14r': (['C17', 'C13', 'C20'], 'R14r (E4): the tree returned by canonicalize_roles / configure / reconfigure / parse contains no list object of an argument (the points-to closure of the result is disjoint from the parameters\' lists), so the in-place operations on the result cannot reach the original.'),
     'R87': (['C20', 'C17'], 'R87: the option tables main() builds once are only read by process/_process_in/_process_out (alias-following over what is unpacked from them).'),
     'R86': (['C01', 'C07', 'C09', 'C20'], 'R86: an argument annotated as Iterable / Iterator / file is walked at most once on every path (a second walk of a file or generator finds nothing).'),
 }
